@@ -241,12 +241,14 @@ def store_ledger_jobs(s, tier, work):
             for drv in ("memory", "badger")]
 
 
+CONC_MC = [("VipPoolConc", "VipPoolConc_updates.cfg"), ("VipPoolConc", "VipPoolConc_mixed.cfg")]
+
 c01 = pool_prop(
     "c01", "C01",
     "seeded pool sessions (hosts, clients, shared wallets, reconnects, forged and stale requests, low-balance cut-offs, "
     "withdrawals, settlement failures) on both drivers; after every operation the ledger total (Stats.TotalCredit and the "
     "sum of all account and trial balances) must equal the model's; distinct = (operation, outcome class)",
-    lambda tier: [("VipStoreMC", "VipStoreMC_bal.cfg")] + ([("VipPoolMC", "VipPoolMC_bill_q.cfg")] if tier == "quick" else [("VipPoolMC", "VipPoolMC_bill.cfg")]),
+    lambda tier: CONC_MC + [("VipStoreMC", "VipStoreMC_bal.cfg")] + ([("VipPoolMC", "VipPoolMC_bill_q.cfg")] if tier == "quick" else [("VipPoolMC", "VipPoolMC_bill.cfg")]),
     weights=dict(update=40, sleep=14, forged=5, withdraw=4, credit=3, addnode=5),
     extra_jobs=store_ledger_jobs)
 
@@ -289,7 +291,7 @@ c07 = pool_prop(
     "c07", "C07",
     "seeded sessions of credit accrual (billing and direct credit), deposits, repeated withdrawals, settlement failures, "
     "fees 0/10, minimum off/5/50; compared: outcome, amount paid, credit left, cumulative paid per wallet",
-    lambda tier: [("VipStoreMC", "VipStoreMC_bal.cfg")] + ([("VipPoolMC", "VipPoolMC_bill_q.cfg")] if tier == "quick" else [("VipPoolMC", "VipPoolMC_bill.cfg")]),
+    lambda tier: CONC_MC + [("VipStoreMC", "VipStoreMC_bal.cfg")] + ([("VipPoolMC", "VipPoolMC_bill_q.cfg")] if tier == "quick" else [("VipPoolMC", "VipPoolMC_bill.cfg")]),
     weights=dict(withdraw=30, credit=14, deposit=10, settlemode=8, addnode=8, update=25, sleep=10, forged=4, wburst=6),
     extra_jobs=lambda s, tier, work: race_jobs("c07race", s, tier, work, "wallet"))
 
@@ -499,7 +501,7 @@ def c10(pid, tier, work, replay):
     jobs += race_jobs("c10race", s, tier, work, "ledger")
     jobs += nonce_race_jobs("c10nonce", s, tier, work)
     return trace_family(
-        pid, tier, work, [("VipStoreMC", "VipStoreMC_bal.cfg"), ("VipPoolMC", "VipPoolMC_bill_q.cfg" if tier == "quick" else "VipPoolMC_bill.cfg")], jobs,
+        pid, tier, work, CONC_MC + [("VipStoreMC", "VipStoreMC_bal.cfg"), ("VipPoolMC", "VipPoolMC_bill_q.cfg" if tier == "quick" else "VipPoolMC_bill.cfg")], jobs,
         POOL_ASSUME + ["bursts run under the fake clock with a single P: goroutines interleave at blocking points (channel, mutex, pipe I/O, badger commit), "
                        "not in parallel; real parallelism and the race detector are exercised by the separate real-clock runs"],
         "seeded sessions in which 2-5 requests (keep-alives, peer requests, connects, account linking, withdrawals, racing copies of one request) "
